@@ -1,5 +1,6 @@
 """C19 – channels and constraints are differentiable (autograd == finite differences under frozen noise); DeepJSCC shape contract (E1 + frozen E4)."""
 import math
+from itertools import product
 
 PID = "C19"
 ENGINE = "kmc-E1-space + kmc-E4-rngseam"
@@ -37,6 +38,8 @@ def cases(tier, seed):
     for a in ("bourtsoulatze", "tung-q", "tung-q2", "kurka"):
         yield f"C19|pipeline|{a}", {"kind": "pipeline", "arch": a, "tier": tier}
     yield "C19|pipeline|kurka-feedback-model", {"kind": "feedback-model", "tier": tier}
+    for D_ in (2, 3):
+        yield f"C19|pipeline|noma-model,D={D_}", {"kind": "noma-model", "D": D_, "tier": tier}
     yield "C19|filters-factor", {"kind": "factor", "tier": tier}
 
 
@@ -45,7 +48,7 @@ def component_of(p):
 
 
 def execute(p, res):
-    {"grad-stage": grad_stage, "grad-constraint": grad_constraint, "shape": shape_case, "pipeline": pipeline_case, "factor": factor_case, "feedback-model": feedback_model_case}[p["kind"]](p, res)
+    {"grad-stage": grad_stage, "grad-constraint": grad_constraint, "shape": shape_case, "pipeline": pipeline_case, "factor": factor_case, "feedback-model": feedback_model_case, "noma-model": noma_model_case}[p["kind"]](p, res)
 
 
 # ----------------------------------------------------------------------------- gradient machinery
@@ -420,6 +423,56 @@ def feedback_model_case(p, res):
             except Exception as e:  # noqa: BLE001
                 res.viol("kurka-feedback-model", cfg, "raises", f"training step: {type(e).__name__}: {str(e)[:200]}")
     res.sample({"arch": "DeepJSCCFeedbackModel", "steps": 3})
+
+
+def noma_model_case(p, res):
+    """the bundled multi-device model as a whole: every combination of its option flags (shared / per-device encoders, device embedding on /
+    off, perfect SIC on / off) x image size / batch: output [B, D, 3, H, W], and after backward() every parameter of every distinct encoder and
+    decoder holds a finite gradient, each network as a whole a non-zero one"""
+    import torch
+    from kaira.channels import AWGNChannel
+    from kaira.constraints import AveragePowerConstraint
+    from kaira.models.image import yilmaz2023_deepjscc_noma as N
+    from kmc.rngseam import Frozen, Seam
+    D = p["D"]
+    for shared, emb, sic in product([False, True], [False, True], [False, True]):
+        for size, batch in ((16, 2), (32, 1)):
+            cfg = f"D={D},shared_encoder={int(shared)},device_embedding={int(emb)},perfect_sic={int(sic)},size={size},batch={batch}"
+            torch.manual_seed(1234)
+            try:
+                in_ch = 4 if emb else 3
+                mkenc = lambda: N.Yilmaz2023DeepJSCCNOMAEncoder(N=16, M=8, in_ch=in_ch, csi_length=1)  # noqa: E731
+                enc = mkenc() if shared else [mkenc() for _ in range(D)]
+                dec = [N.Yilmaz2023DeepJSCCNOMADecoder(N=16, M=8, out_ch_per_device=3, csi_length=1) for _ in range(D)]
+                model = N.Yilmaz2023DeepJSCCNOMAModel(channel=AWGNChannel(snr_db=10.0), power_constraint=AveragePowerConstraint(average_power=1.0), encoder=enc, decoder=dec,
+                                                      num_devices=D, latent_dim=8, shared_encoder=shared, shared_decoder=False, use_perfect_sic=sic, use_device_embedding=emb,
+                                                      image_shape=(size, size)).double()
+                model.train()
+                xs = [image(batch, 3, size, size).double() * (0.5 + 0.5 * d_) / D for d_ in range(D)]
+                with torch.enable_grad():
+                    with Seam(Frozen(7)):
+                        out = model(torch.stack(xs, dim=1) if sic else xs, csi=torch.full((batch, 1), 10.0, dtype=torch.float64))      # documented input form per mode
+                    res.ev(1, nontrivial=1, transitions=1)
+                    if tuple(out.shape) != (batch, D, 3, size, size):
+                        res.viol("noma-model", cfg, "shape", f"output shape {tuple(out.shape)}, expected {(batch, D, 3, size, size)}")
+                        continue
+                    ((out - torch.stack(xs, dim=1)) ** 2).mean().backward()
+            except Exception as e:  # noqa: BLE001
+                res.viol("noma-model", cfg, "raises", f"{type(e).__name__}: {str(e)[:200]}")
+                continue
+            seen = set()
+            for kind_, nets in (("encoder", model.encoders), ("decoder", model.decoders)):
+                for d_, net in enumerate(nets):
+                    if id(net) in seen:
+                        continue
+                    seen.add(id(net))
+                    none = [n_ for n_, q_ in net.named_parameters() if q_.grad is None]
+                    bad = [n_ for n_, q_ in net.named_parameters() if q_.grad is not None and not bool(torch.isfinite(q_.grad).all())]
+                    tot = sum(float(q_.grad.abs().sum()) for _, q_ in net.named_parameters() if q_.grad is not None)
+                    res.ev(1, nontrivial=1, transitions=1)
+                    if none or bad or not tot > 0:
+                        res.viol("noma-model", cfg, "grad-reach", f"{kind_}[{d_}]: {len(none)} parameter tensors without gradient (e.g. {none[:2]}), {len(bad)} non-finite, total |grad| = {tot:.3g}", {"net": f"{kind_}{d_}"})
+    res.sample({"devices": D, "flag_combinations": 8})
 
 
 def factor_case(p, res):
